@@ -139,6 +139,10 @@ class SimQueue:
         sim = S.SIM
         sim.yield_()
         self.queue.append(item)
+        if type(item) is str and item.startswith("Evt"):
+            # the provider's event queue: which state-machine event was queued when, and by which thread
+            me = sim.current()
+            sim.record("evq", item=item, role=me.role if me is not None else None)
         sim.wake(self, 1)
 
     def get(self, block=True, timeout=None):
